@@ -362,6 +362,15 @@ def rule_fixpoint(ctx, rule='C08.FIXPOINT'):
         # exits: only when nothing is left or a pass made no progress (size unchanged)
         conj = [norm(x) for x in pr.conjuncts(w.test)]
         progress = mv in conj and any(f'len({mv})' in c and '!=' in c for c in conj)
+        if not progress and mv in conj:
+            # the no-progress exit spelt as a break:  while tx_map: n = len(tx_map); <call>; if len(tx_map) == n: break
+            brks = [b_ for b_ in walk_own(w) if isinstance(b_, ast.Break)]
+            if len(brks) == 1:
+                cds = pr.control_conditions(brks[0], w)
+                snaps = {norm(s_.targets[0]) for s_ in w.body if isinstance(s_, ast.Assign) and norm(s_.value) == f'len({mv})' and s_.lineno < st.lineno}
+                progress = len(cds) == 1 and cds[0][1] and isinstance(cds[0][0], ast.Compare) and isinstance(cds[0][0].ops[0], ast.Eq) \
+                    and {norm(cds[0][0].left), norm(cds[0][0].comparators[0])} & snaps and f'len({mv})' in (norm(cds[0][0].left), norm(cds[0][0].comparators[0])) \
+                    and brks[0].lineno > st.lineno
         after_merge = w.lineno > merges[0].lineno and not q.in_body(w, merges[0].body)
         ok = carried and progress and after_merge
         why = f'loop `while {norm(w.test)}` carried={carried} progress-test={progress} after the merge={after_merge}'
